@@ -339,8 +339,9 @@ def getPods (en4 en6 erdmaOn : Bool) (pods : List RawPod) : List (String × Bool
 /-- `mergeIPMap(remote, current)` for one interface and one family: addresses the cloud no longer reports are
     dropped from the record, addresses only the cloud knows are entered as the cloud reports them (valid, or
     `Deleting` for an address the cloud reports as not available), and an address known to both sides keeps its
-    recorded entry untouched — status and binding.  (`current` is a non-nil map; with a nil map the Go function
-    allocates a local one and the additions never reach the caller.) -/
+    recorded entry untouched — status and binding.  (A family the record has no address of is a nil map in Go: the
+    function allocates one and returns it, and the caller stores it back — since fix 7563783; before, the additions
+    were lost.) -/
 def mergeEntries (remote current : List Entry) : List Entry :=
   current.filter (fun x => remote.any (·.ip == x.ip)) ++ remote.filter (fun r => !(current.any (·.ip == r.ip)))
 
